@@ -25,18 +25,29 @@ if [ -z "$skip" ]; then
   for n in $names; do rm -f tests/$n.rs; done
   rm -rf wal_files
   timeout 2400 cargo nextest run --workspace --no-fail-fast --tool-config-file pb:/w/lib/nextest.toml --profile pb --test-threads 8 --offline >$out/confirm_suite.log 2>&1
-  python3 - "$tgt/nextest/pb/junit.xml" <<'PY'
-import sys,json,xml.etree.ElementTree as ET
+  python3 - "$out/confirm_suite.log" <<'PY'
+import sys,json,re
 stable=set(json.load(open('/root/.vp/BASELINE.json'))['stable_pass'])
-t=ET.parse(sys.argv[1]); res={}
-for ts in t.getroot().iter('testsuite'):
-    for tc in ts.iter('testcase'):
-        name=ts.get('name')+'::'+tc.get('name')
-        ok = tc.find('failure') is None and tc.find('error') is None
-        res[name]=ok
-missing=[s for s in stable if s not in res]
-failed=[s for s in stable if s in res and not res[s]]
-print("suite: stable_pass=%d ran=%d failed=%s missing=%d %s"%(len(stable),len(res),failed,len(missing),missing[:3]))
+bad=set(); summary=''
+for l in open(sys.argv[1], errors='replace'):
+    m=re.search(r'^\s*(FAIL|TIMEOUT|SIGABRT|SIGSEGV|SIGKILL|ABORT|LEAK-FAIL)\s*\[.*?\]\s*(?:\(.*?\)\s*)?(\S+)\s+(\S+)', l)
+    if m: bad.add(m.group(2)+'::'+m.group(3))
+    if 'Summary' in l: summary=l.strip()
+failed=sorted(stable & bad)
+print("suite: stable_pass=%d failed_stable=%s not_passing_total=%d | %s"%(len(stable),failed,len(bad),summary))
 PY
+  # a stable test that failed in the loaded full run is re-run alone (change still applied), three times
+  for t in $(python3 - "$out/confirm_suite.log" <<'PY2'
+import sys,json,re
+stable=set(json.load(open('/root/.vp/BASELINE.json'))['stable_pass'])
+for l in open(sys.argv[1], errors='replace'):
+    m=re.search(r'^\s*(FAIL|TIMEOUT|SIGABRT|SIGSEGV|SIGKILL|ABORT|LEAK-FAIL)\s*\[.*?\]\s*(?:\(.*?\)\s*)?(\S+)\s+(\S+)', l)
+    if m and (m.group(2)+'::'+m.group(3)) in stable: print(m.group(2).split('::')[-1]+':'+m.group(3))
+PY2
+  ); do
+    bin=${t%%:*}; name=${t#*:}; ok=0
+    for k in 1 2 3; do rm -rf wal_files; timeout 900 cargo nextest run --offline --tool-config-file pb:/w/lib/nextest.toml --profile pb --test $bin -E "test(=$name)" >/dev/null 2>&1 && ok=$((ok+1)); done
+    echo "rerun-alone: $bin $name passed $ok/3"
+  done
 fi
 git checkout -q -- . ; git clean -fdq tests/ 2>/dev/null; rm -rf wal_files $TMPDIR
